@@ -301,6 +301,9 @@ func genTypedValue(typ string) interface{} {
 		case 3:
 			return "éé"
 		default:
+			if verifBool() {
+				return []string{"a"} // a slice is not a string, with or without a format
+			}
 			return small
 		}
 	case "boolean":
